@@ -12,7 +12,7 @@ typedef struct sim_thread sim_thread;
 enum {
 	K_PREEMPT, K_PICK, K_STALL, K_WEAKCAS, K_UNUSUAL, K_WAKE, K_FUTEXSPUR,
 	K_SEMEINTR, K_EPEINTR, K_IOFAULT, K_IOARG, K_ALLOC, K_THRFAIL, K_TIMEFAULT,
-	K_HARNESS, K_NKINDS
+	K_SIGMISS, K_HARNESS, K_NKINDS
 };
 extern const char *const sim_kind_names[K_NKINDS];
 
@@ -42,6 +42,7 @@ typedef struct sim_knobs {
 	int weakcas_den;      // 0 = off
 	unsigned unusual_mask; int unusual_den;
 	int futexspur_den, semeintr_den, epeintr_den;
+	int sigmiss_den;      // signalfd read misfires with EAGAIN (signal taken by the legacy path, raised again)
 	int iofault_den; unsigned iofault_mask;
 	int alloc_den, thrfail_den;
 	int timefault_den; unsigned timefault_mask; // bit0 warp, bit1 wall jump fwd, bit2 wall jump back
@@ -130,6 +131,10 @@ int sim_io_wait_readable(int fd, uint64_t timeout_ns);
 void sim_mark_io(void);
 // epoll registrations seen at the seam: returns events mask currently registered for fd (0 if none)
 uint32_t sim_epoll_registered(int fd);
+/* signals: the library's signalfd() is a stand-in owned by the simulator; a simulated signal is raised with
+ * sim_signal_raise(); sim_signalfd_of() returns the stand-in descriptor for signo or -1 when none is open */
+void sim_signal_raise(int signo);
+int sim_signalfd_of(int signo);
 extern int sim_epoll_ctl_ebadf;
 extern uint64_t (*sim_seq_cb)(void);  // harness global event counter for I/O call stamps
 
